@@ -7,6 +7,8 @@ DYADIC_HARNESSES = [
     'known_finding_val_and_exp_64bit',
 ]
 
+SCALAR4_HARNESSES = ['zero_one_tests', 'from_phase_pi4_is_omega_power', 'minus_one_and_one_plus_phase', 'exact_phase_recognition_small']
+
 PROPS = {
     'C16': {
         'level': 'proof',
@@ -27,9 +29,13 @@ PROPS = {
         'level_text': 'contract harnesses proved by Kani/CBMC over the full 64-bit symbolic domain of the loop-free Dyadic code (complete, not bounded): representation invariant, exact-or-flagged results, order, signed views, conversions',
         'level_note': 'supported exponent range |exp| < 2^29; CBMC bit-precise semantics + kissat; one open known finding (F8) carved out of val_and_exp; see evidence',
         'technique': 'Kani contract harnesses (complete, loop-free, full 64-bit domain) on the real dyadic.rs',
-        'verus': [],
-        'kani': [{'unit': 'dyadic', 'file': 'quizx/src/scalar/dyadic.rs', 'harnesses': DYADIC_HARNESSES,
-                  'thorough_harnesses': ['add_error_bound'],
+        'verus': ['scalar'],
+        'kani': [{'unit': 'dyadic', 'file': 'quizx/src/scalar/dyadic.rs',
+                  'extra_units': [('scalar4', 'quizx/src/scalar/dyadic.rs')],
+                  'harnesses': DYADIC_HARNESSES + SCALAR4_HARNESSES,
+                  'thorough_harnesses': ['add_error_bound', 'exact_phase_recognition'],
+                  'bounded': ['exact_phase_recognition_small'],
+                  'timeout': 7200,
                   'finding_harnesses': {'known_finding_val_and_exp_64bit': 'F8'}}],
         'assumptions': [
             'exponents restricted to |exp| < 2^29 (supported range: keeps exp+-64 and exp+exp inside i32)',
